@@ -681,27 +681,35 @@ func TestVerifC22_Resize(t *testing.T) {
 					t.Skip("schedule point not reached")
 				}
 				lastEnded = job
-				what := rapid.SampledFrom([]string{"duplicate", "fail", "abort", "foreign", "nothing"}).Draw(t, "inWindow")
-				switch what {
-				case "duplicate":
-					st.dup++
-					complete(fmt.Sprintf("duplicate complete node=%s while the coordinator is between result and completion", pend[len(pend)-1]), job.id, pend[len(pend)-1], "")
-				case "fail":
-					st.failed++
-					complete("failed complete while the coordinator is between result and completion", job.id, job.targets[0], "boom")
-				case "foreign":
-					st.foreign++
-					complete("complete node=not-in-job while the coordinator is between result and completion", job.id, "node-zz", "")
-				case "abort":
-					st.abort++
-					e.run("abort while the coordinator is between result and completion", func() error { return e.api.ResizeAbort() })
-					// linearizable either way: the abort came after every node had reported, or it wins
-					m.altMembers = append([]string(nil), m.members...)
-					undo := vC22Action{resizeJobActionRemove, job.act.node}
-					if job.act.kind == resizeJobActionRemove {
-						undo = vC22Action{resizeJobActionAdd, job.act.node}
+				// 0..3 further messages for the same job arrive while the coordinator is between result and completion
+				nIn := rapid.IntRange(0, 3).Draw(t, "nInWindow")
+				what := ""
+				for wi := 0; wi < nIn; wi++ {
+					one := rapid.SampledFrom([]string{"duplicate", "fail", "abort", "foreign"}).Draw(t, "inWindow")
+					what += one + " "
+					switch one {
+					case "duplicate":
+						st.dup++
+						complete(fmt.Sprintf("duplicate complete node=%s while the coordinator is between result and completion", pend[len(pend)-1]), job.id, pend[len(pend)-1], "")
+					case "fail":
+						st.failed++
+						complete("failed complete while the coordinator is between result and completion", job.id, job.targets[wi%len(job.targets)], "boom")
+					case "foreign":
+						st.foreign++
+						complete("complete node=not-in-job while the coordinator is between result and completion", job.id, "node-zz", "")
+					case "abort":
+						st.abort++
+						e.run("abort while the coordinator is between result and completion", func() error { return e.api.ResizeAbort() })
+						// linearizable either way: the abort came after every node had reported, or it wins
+						if m.altMembers == nil {
+							m.altMembers = append([]string(nil), m.members...)
+							undo := vC22Action{resizeJobActionRemove, job.act.node}
+							if job.act.kind == resizeJobActionRemove {
+								undo = vC22Action{resizeJobActionAdd, job.act.node}
+							}
+							m.altMembers = m.apply(m.altMembers, undo)
+						}
 					}
-					m.altMembers = m.apply(m.altMembers, undo)
 				}
 				step = "window(" + what + ") then the coordinator continues"
 				e.history = append(e.history, "coordinator continues")
